@@ -21,6 +21,7 @@ package c02
 
 import (
 	"bytes"
+	"encoding/base64"
 	"encoding/json"
 	"errors"
 	"fmt"
@@ -283,6 +284,7 @@ type run struct {
 }
 
 type outcome struct {
+	srcPos   int // bytes the source had handed out when the run ended
 	released int
 	prefixOK bool
 	equal    bool
@@ -351,21 +353,44 @@ func execute(tb *tv.Batch, h *honest, r run) outcome {
 		}
 		return h.vault.unwrap(w, alg, name, nonce, tag)
 	}
+	// Decrypt and the consumer run in their own goroutine: a panic in the call is recovered and becomes the outcome
+	// "panic", a stream that neither ends nor fails is cut by the watchdog and becomes the outcome "hang"
 	o := outcome{prefixOK: true}
-	dec, err := v1.Decrypt(src, v1.DecryptOptions{UnwrapKeyFn: unwrap})
-	if err != nil {
-		b.Ev("decrypt", tv.M{"err": true, "msg": err.Error()})
-		o.term = "decrypt-err"
-		o.equal = len(h.plain) == 0
-		return finish(o, 0)
-	}
-	b.Ev("decrypt", tv.M{"err": false})
-	buf := make([]byte, r.CBuf)
+	var mu sync.Mutex // guards o and dec between the worker and the watchdog
+	var dec io.Reader
+	streams := int64(0)
+	entry := "Decrypt"
 	done := make(chan struct{})
 	go func() {
 		defer close(done)
+		defer func() {
+			if p := recover(); p != nil {
+				mu.Lock()
+				o.term = "panic"
+				mu.Unlock()
+				b.Ev("panic", tv.M{"entry": entry, "value": fmt.Sprint(p)})
+			}
+		}()
+		d, err := v1.Decrypt(src, v1.DecryptOptions{UnwrapKeyFn: unwrap})
+		if err != nil {
+			b.Ev("decrypt", tv.M{"err": true, "msg": err.Error()})
+			mu.Lock()
+			o.term = "decrypt-err"
+			mu.Unlock()
+			return
+		}
+		mu.Lock()
+		dec, streams, entry = d, 1, "Read"
+		mu.Unlock()
+		b.Ev("decrypt", tv.M{"err": false})
+		buf := make([]byte, r.CBuf)
 		for {
-			n, err := dec.Read(buf)
+			n, err := d.Read(buf)
+			mu.Lock()
+			if o.term == "hang" {
+				mu.Unlock()
+				return
+			}
 			if n > 0 {
 				if o.released+n > len(h.plain) || !bytes.Equal(buf[:n], h.plain[o.released:o.released+n]) {
 					o.prefixOK = false
@@ -378,22 +403,67 @@ func execute(tb *tv.Batch, h *honest, r run) outcome {
 				if err == io.EOF {
 					o.term = "eof"
 				}
+				mu.Unlock()
 				return
 			}
+			mu.Unlock()
 		}
 	}()
+	patience := 30 * time.Second
+	if r.Script.HoldOpen {
+		patience = hangPatience
+	}
 	select {
 	case <-done:
-	case <-time.After(30 * time.Second):
-		if pr, ok := dec.(*io.PipeReader); ok {
-			_ = pr.CloseWithError(errors.New("verif: watchdog"))
-			<-done
-		}
+	case <-time.After(patience):
+		mu.Lock()
 		o.term = "hang"
+		d := dec
+		mu.Unlock()
+		src.Release() // let the source end so that the goroutines of the library can finish
+		if pr, ok := d.(*io.PipeReader); ok {
+			_ = pr.CloseWithError(errors.New("verif: watchdog"))
+		}
+		select {
+		case <-done:
+		case <-time.After(5 * time.Second):
+		}
 	}
-	o.equal = o.prefixOK && o.released == len(h.plain)
-	return finish(o, 1)
+	o.srcPos = src.Pos()
+	src.Release()
+	mu.Lock()
+	defer mu.Unlock()
+	if o.term == "decrypt-err" {
+		o.equal = len(h.plain) == 0
+	} else {
+		o.equal = o.prefixOK && o.released == len(h.plain)
+	}
+	return finish(o, streams)
 }
+
+// rejectsEarly: the document has the honest header and the README implementation finds a stored segment that does not
+// open under its position and that is FOLLOWED by more input: a decryptor has everything it needs to reject the document
+// once it has read that segment and one more byte - it does not need the end of the input.
+func rejectsEarly(h *honest, doc []byte) bool {
+	ph, payload := encref.ParseHeader(doc)
+	if ph.Lines < 3 || ph.ParseErr != "" || !bytes.Equal(doc[:ph.Len], h.hdr) {
+		return false
+	}
+	segs := encref.SplitSegments(payload)
+	for i, sg := range segs {
+		if i == len(segs)-1 {
+			return false // only the final piece is left: whether it is acceptable depends on the end of the input
+		}
+		if _, err := encref.OpenSegment(encref.CipherIDs[h.cipher], h.fk, h.np, uint32(i), false, sg); err != nil {
+			return true
+		}
+	}
+	return false
+}
+
+// hangPatience: how long the consumer of a Decrypt stream waits for the error of a segment that cannot be authenticated
+// when the source stays open; generous (the real code needs microseconds).
+const hangPatience = 3 * time.Second
 
 // ---------------------------------------------------------------------------
 // model scripts
@@ -539,6 +609,8 @@ func opClass(op [3]int, units []unit) string {
 		return "forge-zero-key"
 	case 16:
 		return "prior-legit-decrypt"
+	case 17:
+		return "lengthen-" + []string{"", "scheme", "manifest", "mac"}[op[1]]
 	}
 	return "?"
 }
@@ -610,6 +682,16 @@ func apply(h *honest, s script, rng *rand.Rand, variant int) run {
 			unwrap = a
 		case 16:
 			prior = true
+		case 17:
+			lr := lineRanges(hdr)
+			at := lr[0][1] // end of the scheme line
+			switch a {
+			case 2:
+				at = bytes.Index(hdr, []byte(`"wfk":"`)) + 7
+			case 3:
+				at = lr[2][0]
+			}
+			hdr = append(append(append([]byte{}, hdr[:at]...), bytes.Repeat([]byte{'A'}, bb)...), hdr[at:]...)
 		}
 	}
 	var doc bytes.Buffer
@@ -632,6 +714,9 @@ func apply(h *honest, s script, rng *rand.Rand, variant int) run {
 		sc := encref.Script{ErrKind: kinds[variant%3]}
 		var where string
 		switch {
+		case s.FailAt == -3:
+			sc = encref.Script{ErrAt: -1, HoldOpen: true}
+			where = "source-stays-open"
 		case s.FailAt == -2:
 			sc.ErrAt = rng.Intn(len(hdr))
 			where = "srcfail-in-header"
@@ -653,7 +738,7 @@ func apply(h *honest, s script, rng *rand.Rand, variant int) run {
 				where = "srcfail@end"
 			}
 		}
-		if s.FailAt == -2 && sc.ErrAt > 0 && variant%2 == 1 || s.WithData {
+		if s.FailAt == -2 && sc.ErrAt > 0 && variant%2 == 1 || s.WithData && s.FailAt >= 0 {
 			sc.ErrWithData = true
 			where += "-with-data"
 		}
@@ -661,7 +746,11 @@ func apply(h *honest, s script, rng *rand.Rand, variant int) run {
 			sc.Chunks = []int{100, 1000}
 		}
 		r.Script = sc
-		class += "+" + where + ":" + sc.ErrKind
+		if s.FailAt == -3 {
+			class += "+" + where
+		} else {
+			class += "+" + where + ":" + sc.ErrKind
+		}
 		class = strings.TrimPrefix(class, "unmodified+")
 	}
 	r.Class = class
@@ -847,6 +936,48 @@ func sweeps(thorough bool, rng *rand.Rand) (rs []run, hs []*honest) {
 				}
 			}
 		}
+		// header lines whose (base64) payload is LONGER than what Encrypt writes
+		for _, h := range []*honest{small, big} {
+			lr := lineRanges(h.hdr)
+			splice := func(at, del int, ins []byte) []byte {
+				return append(append(append([]byte{}, h.doc[:at]...), ins...), h.doc[at+del:]...)
+			}
+			b64 := func(n int, seed int64) []byte { return []byte(base64.StdEncoding.EncodeToString(pseudo(n, seed))) }
+			for _, n := range []int{0, 1, 16, 31, 33, 34, 35, 48, 64, 100, 1000, 49000} {
+				add(h, run{Class: "lengthen-mac", Doc: splice(lr[2][0], lr[2][1]-lr[2][0], b64(n, int64(n))), Desc: fmt.Sprintf("MAC line replaced by the base64 of %d bytes", n)})
+			}
+			for k := 1; k <= 8; k++ {
+				ins := bytes.Repeat([]byte{'Q'}, k)
+				add(h, run{Class: "lengthen-mac", Doc: splice(lr[2][0], 0, ins), Desc: fmt.Sprintf("%d base64 characters inserted at the start of the MAC line", k)})
+				add(h, run{Class: "lengthen-mac", Doc: splice(lr[2][1]-1, 0, ins), Desc: fmt.Sprintf("%d base64 characters inserted before the padding of the MAC line", k)})
+				add(h, run{Class: "lengthen-mac", Doc: splice(lr[2][1], 0, ins), Desc: fmt.Sprintf("%d base64 characters appended to the MAC line", k)})
+				add(h, run{Class: "lengthen-scheme", Doc: splice(lr[0][1], 0, ins), Desc: fmt.Sprintf("%d characters appended to the scheme line", k)})
+				for _, f := range []string{`"wfk":"`, `"np":"`, `"k":"`} {
+					if at := bytes.Index(h.hdr, []byte(f)); at >= 0 {
+						add(h, run{Class: "lengthen-manifest", Doc: splice(at+len(f), 0, ins), Desc: fmt.Sprintf("%d characters inserted at the start of the manifest value %s", k, f)})
+					}
+				}
+			}
+			for _, f := range []string{`"wfk":"`, `"np":"`} {
+				at := bytes.Index(h.hdr, []byte(f)) + len(f)
+				end := at + bytes.IndexByte(h.hdr[at:], '"')
+				for _, n := range []int{8, 9, 33, 64, 600} {
+					add(h, run{Class: "lengthen-manifest", Doc: splice(at, end-at, b64(n, int64(n)+3)), Desc: fmt.Sprintf("manifest value %s replaced by the base64 of %d bytes", f, n)})
+				}
+			}
+		}
+		// a source that stays open after its last byte (a pipe / network body whose writer waits for the outcome): a segment that
+		// cannot be authenticated and is followed by more input must be rejected without waiting for the end of the input
+		for _, o := range []int{len(big.hdr), len(big.hdr) + 1000, len(big.hdr) + unitSize - 2, len(big.hdr) + unitSize + 7, len(big.hdr) + 2*unitSize - 20} {
+			d := append([]byte{}, big.doc...)
+			d[o] ^= 0x20
+			add(big, run{Class: "flip-seg+source-stays-open", Doc: d, Script: encref.Script{ErrAt: -1, HoldOpen: true, ChunkSize: 10000},
+				Desc: fmt.Sprintf("2-segment+tail document, bit flipped in byte %d (stored segment %d, followed by more input); the source blocks after its last byte instead of returning EOF", o, (o-len(big.hdr))/unitSize)})
+		}
+		{
+			d := append(append(append([]byte{}, big.hdr...), big.units[1].bytes()...), big.doc[len(big.hdr):]...)
+			add(big, run{Class: "dup-seg+source-stays-open", Doc: d, Script: encref.Script{ErrAt: -1, HoldOpen: true}, Desc: "stored segment 1 inserted in front of segment 0; the source blocks after its last byte"})
+		}
 		// documents forged under the all-zero file key x every outcome of the unwrap callback
 		for _, h := range []*honest{small, big, empty} {
 			fh, fu, _ := forge(h)
@@ -1000,7 +1131,7 @@ func TestCheck(t *testing.T) {
 		var dw sync.WaitGroup
 		sem := make(chan struct{}, 3)
 		for _, d := range []string{"MC_tamper_strict.cfg", "MC_tamper_defect_nolastbind.cfg", "MC_tamper_defect_release-first.cfg", "MC_tamper_defect_swallow.cfg",
-			"MC_tamper_defect_zero-key-accepted.cfg", "MC_tamper_defect_wipes-unwrapped-key.cfg", "MC_tamper_defect_double-put.cfg", "MC_position_defect_wrap24.cfg", "MC_position_defect_wrap16.cfg", "MC_position_defect_last-overlaps.cfg"} {
+			"MC_tamper_defect_zero-key-accepted.cfg", "MC_tamper_defect_wipes-unwrapped-key.cfg", "MC_tamper_defect_double-put.cfg", "MC_tamper_defect_drain-before-close.cfg", "MC_tamper_defect_mac-overflow-panics.cfg", "MC_position_defect_wrap24.cfg", "MC_position_defect_wrap16.cfg", "MC_position_defect_last-overlaps.cfg"} {
 			dw.Add(1)
 			go func(d string) {
 				defer dw.Done()
@@ -1082,17 +1213,39 @@ func TestCheck(t *testing.T) {
 		}
 		return true
 	}
+	hangs := 0
 	doRun := func(h *honest, r run) bool {
 		if !ensureControl(h) {
 			return false
 		}
+		if r.Script.HoldOpen {
+			// the source stays open after its last byte.  Only documents that the decryptor demonstrably rejects WITHOUT needing the end
+			// of the input are replayed this way (otherwise it legitimately waits): probe with the same document from a source that ends
+			if hangs >= 2 {
+				return true // the family is cut short after two hangs (each costs the watchdog's patience)
+			}
+			probe := r
+			probe.Script = encref.NoErr()
+			po := execute(&tv.Batch{}, h, probe)
+			early := r.Unwrap == 0 && rejectsEarly(h, r.Doc) // judged by the README implementation, not by the code under test
+			hdrOnly := po.term == "decrypt-err" && bytes.Count(r.Doc, []byte{'\n'}) >= 3
+			if !early && !hdrOnly {
+				return true
+			}
+		}
+		if !ensureControl(h) {
+			return false
+		}
 		o := execute(mb.cur(), h, r)
+		if o.term == "hang" {
+			hangs++
+		}
 		mb.note(len(runs))
 		classes[strings.SplitN(r.Class, ":", 2)[0]]++
 		e.Nontrivial(r.Cipher + "|" + r.Desc + "|" + r.Class)
 		r.Doc = nil
 		if r.Pred != nil {
-			want := []string{"eof", "err", "decrypt-err"}[r.Pred[1]]
+			want := []string{"eof", "err", "decrypt-err", "pending"}[r.Pred[1]%4]
 			sameTerm := o.term == want
 			if r.Script.ErrAt >= 0 && want != "eof" && o.term != "eof" {
 				// a source failure is reported by Decrypt itself when the failing Read is the one that completes the header
@@ -1277,6 +1430,32 @@ func TestCheck(t *testing.T) {
 				}
 				key = "caller-key-modified:after-" + after
 				what = fmt.Sprintf("the key bytes retained by the caller's key provider (the slice the unwrap callback returns / the wrap callback was given) were modified by %s [first seen: %s, %s, %s]", after, r.Class, r.Cipher, r.Desc)
+			}
+			if rj.Why == "Decrypt panicked" {
+				entry, val := "Decrypt", ""
+				for _, l := range b.TraceStrings(rj.Trace) {
+					if strings.Contains(l, `"ev":"panic"`) {
+						var pe struct {
+							Entry string `json:"entry"`
+							Value string `json:"value"`
+						}
+						_ = json.Unmarshal([]byte(l), &pe)
+						entry, val = pe.Entry, pe.Value
+					}
+				}
+				cl := strings.SplitN(r.Class, ":", 2)[0]
+				for _, part := range strings.Split(cl, "+") {
+					if strings.HasPrefix(part, "lengthen-") || strings.HasPrefix(part, "flip-mac") || strings.HasPrefix(part, "flip-manifest") || strings.HasPrefix(part, "flip-scheme") || strings.HasPrefix(part, "trunc-in-header") {
+						cl = part // the header mutation is what the synchronous part of Decrypt sees
+						break
+					}
+				}
+				key = "panic:" + entry + ":" + cl
+				what = fmt.Sprintf("%s panicked (%s) instead of returning an error [%s, %s, %s]", entry, val, r.Class, r.Cipher, r.Desc)
+			}
+			if rj.Why == "stream never terminated" && r.Script.HoldOpen {
+				key = "stream-never-terminated-after-tampered-segment"
+				what = fmt.Sprintf("the source stays open after its last byte; the Decrypt stream delivered neither an error nor an end within %s although it had read a segment it cannot authenticate [first seen: %s, %s, %s]", hangPatience, r.Class, r.Cipher, r.Desc)
 			}
 			if strings.HasPrefix(rj.Why, "pooled buffer") {
 				term := "?"
